@@ -259,7 +259,8 @@ func cmdRun(args []string) int {
 	known := loadKnown(*knownPath)
 	knownKeys := map[string]bool{}
 	for _, k := range known {
-		if k.Kind == "known" && k.Property == *prop {
+		if k.Kind == "known" {
+			// a finding is keyed by its trigger; harnesses shared between properties meet the same defect
 			knownKeys[k.Key] = true
 		}
 	}
@@ -353,10 +354,10 @@ func cmdRun(args []string) int {
 	wall := time.Since(t0).Seconds()
 	var knownLines []string
 	for _, k := range known {
-		if k.Kind == "known" && k.Property == *prop {
+		if k.Kind == "known" {
 			if knownHits[k.Key] > 0 {
 				knownLines = append(knownLines, fmt.Sprintf("KNOWN-FINDING: property=%s %s", *prop, k.Text))
-			} else if len(results) > 0 && *only == "" {
+			} else if len(results) > 0 && *only == "" && k.Property == *prop {
 				fmt.Fprintf(os.Stderr, "note: known finding %s no longer reproduces within this tier's bounds (stale entry?)\n", k.Key)
 			}
 		}
